@@ -6,6 +6,7 @@ import AriesVerif.C20.Drv
 import AriesVerif.C18.Drv
 import AriesVerif.C01.Drv
 import AriesVerif.C12.Drv
+import AriesVerif.C05.Drv
 /-! Line protocol: stdin lines `<caseid>\t<input>[\t<impl output>]`;
     stdout lines `<caseid>\t<model output>\t<spec output>\t<finding tags>`.
     For properties whose Spec is an oracle over observed behaviour the spec column is the implementation's output
@@ -18,6 +19,8 @@ def dispatch (prop : String) (input : String) (impl : String) : String × String
   | "C19" => (C19.Drv.handle input, C19.Drv.handleSpec input, "")
   | "C01" => (Env.Drv.handle input, Env.Drv.handle input, "")
   | "C02" => let r := Env.Drv.judgeMut input impl; (r.1, r.2, "")
+  | "C05" => Kms.Drv.judge05 input impl
+  | "C06" => Kms.Drv.judge06 input impl
   | "C12" => ("=", Sym.Drv.judge impl, "")
   | "C18" => C18.Drv.judge input impl
   | "C20" => (C20.Drv.handle input, C20.Drv.oracle input impl, "")
